@@ -104,6 +104,10 @@ inductive Ev (α : Type)
 
 variable {α : Type} [Num α]
 
+/-- `info.statCalc`: a stat is base × (1 + percent) + flat, and never below zero -/
+def statCalc (base pct flat : α) : α :=
+  if base * (1 + pct) + flat < 0 then 0 else base * (1 + pct) + flat
+
 def nth (l : List α) (i : Nat) : α := l.getD i 0
 
 /-- factors of one hit, by the party the documented formula names -/
